@@ -244,6 +244,34 @@ impl Monitor for C20 {
                             2 => sdk::TickArrays::Two(arrays[0], arrays[1]),
                             _ => sdk::TickArrays::Three(arrays[0], arrays[1], arrays[2]),
                         };
+                        // the SDK's own swap helper hands the quote FIVE arrays - the current one, two above, two below - through
+                        // the array conversion: the same quote must come out of that packaging (the three arrays the program was
+                        // given are among the five)
+                        if complete && arrays.len() == 3 {
+                            let mk_tas = || sdk::TickArrays::Three(arrays[0], arrays[1], arrays[2]);
+                            let width = 88 * pool.tick_spacing as i32;
+                            let cur = pool.tick_current_index.div_euclid(width) * width;
+                            let lowest = decode::MIN_TICK.div_euclid(width) * width;
+                            let five_starts = [cur, cur + width, cur + 2 * width, cur - width, cur - 2 * width];
+                            // (only when the five cover what the program was given: with the price in the last slots of an array
+                            // an upward swap starts one array further up and may need a third array above)
+                            if five_starts.iter().all(|s| *s >= lowest && *s <= decode::MAX_TICK) && arrays.iter().all(|f| five_starts.contains(&f.start_tick_index)) {
+                                let five: [sdk::TickArrayFacade; 5] = std::array::from_fn(|i| array_facade(pre, &crate::ix::pda_tick_array(&wk, five_starts[i]), five_starts[i]));
+                                let tas5: sdk::TickArrays = five.into();
+                                let (q3, q5): (Option<(u64, u64)>, Option<(u64, u64)>) = if a.is_input {
+                                    let f = |t: sdk::TickArrays| crate::rt::guarded(|| sdk::swap_quote_by_input_token(a.amount, a.a_to_b, slip, pool_facade(&pool), oracle, t, now, fa, fb)).ok().and_then(|r| r.ok()).map(|q| (q.token_in, q.token_est_out));
+                                    (f(mk_tas()), f(tas5))
+                                } else {
+                                    let f = |t: sdk::TickArrays| crate::rt::guarded(|| sdk::swap_quote_by_output_token(a.amount, !a.a_to_b, slip, pool_facade(&pool), oracle, t, now, fa, fb)).ok().and_then(|r| r.ok()).map(|q| (q.token_est_in, q.token_out));
+                                    (f(mk_tas()), f(tas5))
+                                };
+                                cov.probe("quote_with_five_arrays_compared");
+                                if q3.is_some() && q3 != q5 {
+                                    out.push(viol("sdk_quote_depends_on_the_array_packaging", ev.idx, format!("{} ({} {} amount {}): the quote over the three arrays the program was given is {:?}, over the SDK helper's five arrays (current, +1, +2, -1, -2) it is {:?}", name, if a.a_to_b { "a_to_b" } else { "b_to_a" }, if a.is_input { "exact-in" } else { "exact-out" }, a.amount, q3, q5)));
+                                    return out;
+                                }
+                            }
+                        }
                         let post = post.unwrap();
                         let (uin, uout) = if a.a_to_b { (c.a("token_owner_account_a"), c.a("token_owner_account_b")) } else { (c.a("token_owner_account_b"), c.a("token_owner_account_a")) };
                         let paid = token_amount(pre, &uin) as i128 - token_amount(post, &uin) as i128;
